@@ -1089,6 +1089,10 @@ inline url::url(url&& other) noexcept
 }
 
 inline url& url::operator=(url&& other) UPA_NOEXCEPT_17 {
+    // moving a url into itself leaves it as it is
+    if (std::addressof(other) == this)
+        return *this;
+
     // move data
     move_record(other);
     search_params_ptr_ = std::move(other.search_params_ptr_);
@@ -1100,6 +1104,10 @@ inline url& url::operator=(url&& other) UPA_NOEXCEPT_17 {
 }
 
 inline url& url::safe_assign(url&& other) {
+    // moving a url into itself leaves it as it is
+    if (std::addressof(other) == this)
+        return *this;
+
     if (search_params_ptr_) {
         if (other.search_params_ptr_) {
             move_record(other);
@@ -1123,8 +1131,7 @@ inline void url::move_record(url& other) UPA_NOEXCEPT_17 {
     flags_ = other.flags_;
     path_segment_count_ = other.path_segment_count_;
     // leave the moved-from URL record empty (and not valid)
-    if (std::addressof(other) != this)
-        other.reset_record();
+    other.reset_record();
 }
 
 inline void url::reset_record() noexcept {
